@@ -560,3 +560,34 @@ Proof.
   destruct (srun world sem semc k sp (O, V0, W)) as [[[s V] W'']|res' W''|]; cbn in Hk; try discriminate.
   inversion Hk; subst. exists s, V. reflexivity.
 Qed.
+
+(* ------------------------------------------------------------------ register lists *)
+Lemma list_loc_eqb_eq : forall x y : list loc, list_eqb loc_eqb x y = true -> x = y.
+Proof.
+  induction x as [|a x IH]; intros [|b y] H; cbn in H; try discriminate; [reflexivity|].
+  apply andb_true_iff in H. destruct H as [Ha Hx]. apply loc_eqb_eq in Ha. apply IH in Hx. subst. reflexivity.
+Qed.
+
+(* an accepted list is exactly the list the CPU derives from the encoded first register and the list length *)
+Theorem consec_ok_sound ls : consec_ok ls = true ->
+  match ls with
+  | [] => True
+  | LReg g id :: _ => ls = expand_list g id (length ls)
+  | LSlot _ :: _ => False
+  end.
+Proof.
+  destruct ls as [|[g id|o] ls]; cbn [consec_ok]; intros H; [exact I | apply list_loc_eqb_eq; exact H | discriminate].
+Qed.
+
+(* member i of an expanded list is register (first + i) mod 32 *)
+Lemma expand_list_nth g : forall n id i, (id < 32)%N -> (i < n)%nat ->
+  nth i (expand_list g id n) (LSlot 0) = LReg g (N.modulo (id + N.of_nat i) 32).
+Proof.
+  induction n; intros id i Hid Hi; [lia|]. destruct i as [|i]; cbn [expand_list nth].
+  - rewrite N.add_0_r, N.mod_small by exact Hid. reflexivity.
+  - rewrite IHn; [| apply N.mod_upper_bound; discriminate | lia].
+    rewrite Nat2N.inj_succ, N.add_mod_idemp_l by discriminate. f_equal. f_equal. lia.
+Qed.
+
+Theorem lists_ok_sound groups : lists_ok groups = true -> forall ls, In ls groups -> consec_ok ls = true.
+Proof. unfold lists_ok. intros H ls Hin. rewrite forallb_forall in H. apply H. exact Hin. Qed.
